@@ -84,6 +84,77 @@ fn cfg_for(r: &mut Rng, n: usize) -> MapCfg {
 	cfg
 }
 
+/// Unicode White_Space characters that are legal in names (none of TAB / LF / CR): `str::trim` would remove them
+const WS: &[char] = &[' ', '\u{a0}', '\u{2003}', '\u{3000}', '\u{85}', '\u{1680}', '\u{2028}', '\u{b}', '\u{c}'];
+
+fn ws_string(r: &mut Rng) -> String { (0..r.range(1, 2)).map(|_| *r.pick(WS)).collect() }
+
+/// leading / trailing / only white space; names with `<` (`<init>`) are left alone, they would become invalid
+fn ws_name(name: &str, r: &mut Rng) -> String {
+	if name.contains('<') { return name.to_owned(); }
+	match r.below(4) {
+		0 => format!("{}{name}", ws_string(r)),
+		1 => format!("{name}{}", ws_string(r)),
+		2 => format!("{}{name}{}", ws_string(r), ws_string(r)),
+		_ => ws_string(r),
+	}
+}
+
+fn ws_row(names: &mut [Option<String>], first_taken: &dyn Fn(&str) -> bool, r: &mut Rng) {
+	for k in 0..names.len() {
+		if !r.chance(1, 2) { continue; }
+		let Some(old) = names[k].clone() else { continue };
+		let new = ws_name(&old, r);
+		if k == 0 && first_taken(&new) { continue; }
+		names[k] = Some(new);
+	}
+}
+
+/// names with white space at every level and in every column (all inside the domain: `cell` accepts them and the name
+/// checks do too), plus pairs of keys that differ only by such a character
+fn whitespace_names(g: &mut GMappings, r: &mut Rng, out: &mut Out) {
+	let mut class_keys: Vec<String> = g.classes.iter().map(|c| c.key()).collect();
+	for ci in 0..g.classes.len() {
+		let keys = class_keys.clone();
+		ws_row(&mut g.classes[ci].names, &|n| keys.iter().any(|k| k == n), r);
+		class_keys[ci] = g.classes[ci].key();
+		let c = &mut g.classes[ci];
+		for fi in 0..c.fields.len() {
+			let taken: Vec<(String, String)> = c.fields.iter().map(|f| (f.names[0].clone().unwrap_or_default(), f.desc.clone())).collect();
+			let desc = c.fields[fi].desc.clone();
+			ws_row(&mut c.fields[fi].names, &|n| taken.iter().any(|(k, d)| k == n && *d == desc), r);
+		}
+		for mi in 0..c.methods.len() {
+			let taken: Vec<(String, String)> = c.methods.iter().map(|f| (f.names[0].clone().unwrap_or_default(), f.desc.clone())).collect();
+			let desc = c.methods[mi].desc.clone();
+			ws_row(&mut c.methods[mi].names, &|n| taken.iter().any(|(k, d)| k == n && *d == desc), r);
+			for p in &mut c.methods[mi].params { ws_row(&mut p.names, &|_| false, r); }
+		}
+		// a sibling whose key differs only by one such character
+		if r.chance(1, 2) {
+			if let Some(f) = c.fields.first().cloned() {
+				let mut f2 = f.clone();
+				let n2 = format!("{}{}", f.names[0].clone().unwrap_or_default(), r.pick(WS));
+				if !c.fields.iter().any(|x| x.desc == f.desc && x.names[0].as_deref() == Some(&n2)) { f2.names[0] = Some(n2); c.fields.push(f2); }
+			}
+			if let Some(m) = c.methods.first().cloned() {
+				let old = m.names[0].clone().unwrap_or_default();
+				let n2 = format!("{}{old}", r.pick(WS));
+				if !old.contains('<') && !c.methods.iter().any(|x| x.desc == m.desc && x.names[0].as_deref() == Some(&n2)) {
+					let mut m2 = m.clone(); m2.names[0] = Some(n2); c.methods.push(m2);
+				}
+			}
+		}
+	}
+	if r.chance(1, 2) {
+		if let Some(c) = g.classes.first().cloned() {
+			let n2 = format!("{}{}", c.key(), r.pick(WS));
+			if !g.classes.iter().any(|x| x.key() == n2) { let mut c2 = c.clone(); c2.names[0] = Some(n2); g.classes.push(c2); }
+		}
+	}
+	out.stats.hit("has:whitespace-names");
+}
+
 /// pushes the set outside the proved domain in one of the known ways
 /// comments that used to break the format (before fix a79b1fd); all inside the domain now
 const HARD_DOCS: &[&str] = &["x\\ny", "\\n", "a\\\\nb", "tab\there", "ends with cr\r", "cr\r\nlf", "\\", "n\\", "\\\nn", "\\t\\r\\\\", "\t", "\r", "\n",
@@ -183,7 +254,7 @@ fn mutate_text(lines: &mut Vec<String>, r: &mut Rng, out: &mut Out) {
 			let cellsv: Vec<String> = lines[body].split('\t').map(|s| s.to_owned()).collect();
 			let mut v = cellsv.clone();
 			let k = r.below(v.len());
-			v[k] = (*r.pick(&["", "a.b", "a;b", "[a", "a//b", "/a", "a/", "<x>", "<init>", "<clinit>", "a/b", "x\\ny", "é", "\u{1f600}", " "])).to_owned();
+			v[k] = (*r.pick(&["", "a.b", "a;b", "[a", "a//b", "/a", "a/", "<x>", "<init>", "<clinit>", "a/b", "x\\ny", "é", "\u{1f600}", " ", "\u{3000}", "\u{a0}x", "x\u{2003}", "\u{85}", "\u{b}\u{c}"])).to_owned();
 			lines[body] = v.join("\t");
 			"cell-replaced"
 		}
@@ -203,6 +274,7 @@ fn gen(r: &mut Rng, tier: Tier, out: &mut Out) {
 		let cfg = cfg_for(r, n);
 		let mut g = gen_mappings(r, &cfg);
 		if r.chance(1, 3) { hard_docs(&mut g, r, out); }
+		if r.chance(1, 4) { whitespace_names(&mut g, r, out); }
 		let spoiled = r.chance(1, 7);
 		if spoiled { spoil(&mut g, r, out); }
 		out.stats.hit(&format!("n:{n}"));
@@ -282,7 +354,9 @@ fn gen(r: &mut Rng, tier: Tier, out: &mut Out) {
 		"tiny\t2\t0\ta\tb\nc\tA\tB\r\n\tc\tdoc\r\r\n", "tiny\t2\t0\ta\tb\nc\tA\tB\n\tf\n", "tiny\t2\t0\ta\tb\nc\tA\tB\n\tf\t\tx\ty\n", "tiny\t2\t0\ta\tb\nc\tA\tB\n\tm\t()V\n",
 		"tiny\t2\t0\ta\tb\nc\tp/A$B$C\t$\n\tf\tLp/A$B;\t$\t$$\n",
 		"tiny\t2\t0\ta\tb\nc\tA\tB\n\tc\t\\\\n \\x \\t\\r\\n \\\\\\ end\\\n", "tiny\t2\t0\ta\tb\nc\tA\tB\n\tc\t\\\n", "tiny\t2\t0\ta\tb\nc\tA\tB\n\tc\t\\\\\\\n",
-		"tiny\t2\t0\ta\tb\nc\tA\\tB\tB\\n\n"] {
+		"tiny\t2\t0\ta\tb\nc\tA\\tB\tB\\n\n",
+		"tiny\t2\t0\ta\tb\nc\tA\t \nc\tA \t\u{3000}\nc\t \t\n\tf\tI\t\u{a0}\t \n\tf\tI\t\u{a0}\u{a0}\t\n\tm\t()V\t run\trun \n\t\tp\t0\t \t\u{2003}\n\t\tp\t 1\t\t\n",
+		"tiny\t2\t0\t a\tb \nc\tA\tB\n", "tiny\t2\t0\ta\t \nc\tA\tB\n"] {
 		for n in 2..=3 {
 			out.op("tiny-read", &[Sexp::nat(n), Sexp::str(t)]);
 			out.op("oracle-read-counts", &[Sexp::nat(n), Sexp::str(t)]);
